@@ -174,7 +174,8 @@ def addAll {W : Type} (add : W → W → W) (es : List (List α × W)) (init : L
 
 /-- `CharScorer::new` -/
 def charScorerNew (cfg : Cfg) (m : WModel) (tagNgrams : List (List (TagNgramData Char))) : Res (Option (PmaScorer Char)) :=
-  if (m.charNgrams.isEmpty && m.dict.isEmpty) || m.charW = 0 then .ok none
+  let noTagNgrams := !cfg.tagPred || tagNgrams.all (·.isEmpty)
+  if (m.charNgrams.isEmpty && m.dict.isEmpty && noTagNgrams) || m.charW = 0 then .ok none
   else if m.dict.any (fun d => 32767 < d.word.length) then .err .invalidModel
   else
     let off : Int := -(m.charW : Int)
@@ -190,7 +191,8 @@ def charScorerNew (cfg : Cfg) (m : WModel) (tagNgrams : List (List (TagNgramData
 
 /-- `TypeScorer::new` -/
 def typeScorerNew (cfg : Cfg) (m : WModel) (tagNgrams : List (List (TagNgramData Nat))) : Res (Option TypeScorer) :=
-  if m.typeNgrams.isEmpty || m.typeW = 0 then .ok none
+  let noTagNgrams := !cfg.tagPred || tagNgrams.all (·.isEmpty)
+  if (m.typeNgrams.isEmpty && noTagNgrams) || m.typeW = 0 then .ok none
   else
     let off : Int := -(m.typeW : Int)
     if cfg.tagPred && !tagNgrams.isEmpty then
